@@ -1231,7 +1231,15 @@ fn check_embedded(ctx: &mut Ctx, x: &[u8], r: &mut Rng, force_control: bool) {
                             detail(json!({"position": k, "field_after": hx(&fields[k])})),
                         );
                     }
-                    (_, Prefix::Trailing) => ctx.bucket("c.lenient.trailing-bytes-accepted"),
+                    (_, Prefix::Trailing) => {
+                        // a valid address followed by more bytes is classified as that address (a mainnet block
+                        // holds such an output, and a test of the repository pins its kind); what the statement
+                        // demands all the same is that the bytes are written back unchanged
+                        ctx.bucket("c.lenient.trailing-bytes-accepted");
+                        if fields[k] != x {
+                            ctx.violation("embedded/trailing-bytes-after-a-valid-address-dropped-on-rewrite", detail(json!({"position": k, "container": ty, "field_after": hx(&fields[k])})));
+                        }
+                    }
                     _ => ctx.bucket("c.lenient.dont-care-accepted"),
                 }
                 ctx.sample("embedded-typed", || json!({"address_bytes": hx(x), "class": cls.label(), "container": c.name(), "kind": ob.kind}));
